@@ -1,4 +1,106 @@
-From Coq Require Import ZArith List Bool.
-Require Import SV.C19.Rotate SV.C19.RotateCheck.
-Theorem c19_stub : True. Proof. exact I. Qed.
-Print Assumptions c19_stub.
+(* C19 - Rotating logs keep the newest output within the configured bounds.
+   Property theorems only; each is closed by `exact <lemma>` and followed by
+   Print Assumptions.  Model: SV.C19.Rotate (FileHandler / RotatingFileHandler /
+   handle_file on a file system of names -> inodes -> bytes).
+   `run mb bk ops` is the state after the operations, `run_eff` additionally
+   carries the effective history: everything written, minus what was in the
+   live log at the moment it was cleared.  `internal` operations are those of
+   the handler's owner (write, clear, reopen); one handler per path. *)
+From Coq Require Import ZArith List Bool Lia.
+Import ListNotations.
+Require Import SV.C19.Rotate SV.C19.RotateLemmas SV.C19.RotateSpec SV.C19.RotateInv
+               SV.C19.RotateThms SV.C19.RotateMore SV.C19.RotateShared.
+Open Scope Z_scope.
+
+(* only the log and .1 ... .N exist *)
+Theorem c19_files :
+  forall mb bk, mb > 0 -> forall ops f h,
+    forallb internal ops = true -> run mb bk ops = Ok f h ->
+    forall j c, file f j = Some c -> 0 <= j <= Z.max 0 bk.
+Proof. exact files_thm. Qed.
+Print Assumptions c19_files.
+
+(* .N ++ ... ++ .1 ++ log is a suffix of the effective history: only a prefix
+   (whole oldest files) is ever dropped, nothing from the middle, order kept *)
+Theorem c19_suffix :
+  forall mb bk, mb > 0 -> forall ops f h E,
+    forallb internal ops = true -> run_eff mb bk ops = (Ok f h, E) ->
+    exists D, E = D ++ concat_files f (Z.to_nat (Z.max 0 bk)).
+Proof. exact suffix_thm. Qed.
+Print Assumptions c19_suffix.
+
+(* without clear operations the effective history is simply everything written *)
+Theorem c19_history_is_everything_written :
+  forall mb bk ops, forallb no_clear ops = true -> snd (run_eff mb bk ops) = written ops.
+Proof. exact run_eff_no_clear. Qed.
+Print Assumptions c19_history_is_everything_written.
+
+(* every backup is at least maxbytes long ... *)
+Theorem c19_sizes_backups :
+  forall mb bk, mb > 0 -> forall ops f h,
+    forallb internal ops = true -> run mb bk ops = Ok f h ->
+    forall j c, j >= 1 -> file f j = Some c -> zlen c >= mb.
+Proof. exact backup_size_thm. Qed.
+Print Assumptions c19_sizes_backups.
+
+(* ... and the live log is shorter than maxbytes once a write has completed *)
+Theorem c19_sizes_live :
+  forall mb bk, mb > 0 -> forall ops msg f h,
+    forallb internal ops = true -> run mb bk (ops ++ [Write msg]) = Ok f h ->
+    exists c, file f 0 = Some c /\ zlen c < mb.
+Proof. exact live_size_thm. Qed.
+Print Assumptions c19_sizes_live.
+
+(* backups = 0: the log is emptied when it reaches maxbytes, nothing else exists *)
+Theorem c19_backups_zero :
+  forall mb bk, mb > 0 -> forall ops msg f h,
+    bk <= 0 -> forallb internal ops = true -> run mb bk ops = Ok f h ->
+    exists f' h',
+      step (Ok f h) (Write msg) = Ok f' h' /\
+      let c := file_or_empty f 0 ++ msg in
+      file f' 0 = Some (if zlen c >=? mb then [] else c) /\
+      forall j, j <> 0 -> file f' j = None.
+Proof. exact backups_zero_thm. Qed.
+Print Assumptions c19_backups_zero.
+
+(* maxbytes = 0 (handle_file picks the plain FileHandler): one file holding the
+   whole effective history - nothing rotated, nothing dropped *)
+Theorem c19_maxbytes_zero :
+  forall bk ops f h E,
+    forallb internal ops = true -> run_eff 0 bk ops = (Ok f h, E) ->
+    forall j, file f j = if j =? 0 then Some E else None.
+Proof. exact maxbytes_zero_thm. Qed.
+Print Assumptions c19_maxbytes_zero.
+
+(* after any history (in particular after clear / reopen) the handler's open
+   stream is the file at the configured path: later writes land there; with
+   c19_suffix, what is written after a clear is kept like any other output *)
+Theorem c19_clear_reopen :
+  forall mb bk, mb > 0 -> forall ops f h,
+    forallb internal ops = true -> run mb bk ops = Ok f h ->
+    exists ino, h_stream h = Some ino /\ get (names f) 0 = Some ino.
+Proof. exact stream_at_path_thm. Qed.
+Print Assumptions c19_clear_reopen.
+
+(* files deleted or replaced behind the handler's back: no exception comes out
+   of any operation and no file outside log, .1 ... .N appears *)
+Theorem c19_external_tolerated :
+  forall mb bk ops,
+    Forall (ext_ok bk) ops ->
+    exists f h, run mb bk ops = Ok f h /\ forall j c, file f j = Some c -> 0 <= j <= Z.max 0 bk.
+Proof. exact external_tolerated_thm. Qed.
+Print Assumptions c19_external_tolerated.
+
+(* Known finding C19-shared: two handlers on one path (maxbytes 10, backups 2,
+   alternating 4-byte writes) leave a backup shorter than maxbytes and a
+   concatenation that is not a suffix of what was written *)
+Theorem c19_shared_refuted :
+  exists ops, shared_bad 10 2 (mrun 2 10 2 ops) (mwritten ops) = true.
+Proof. exact shared_refuted. Qed.
+Print Assumptions c19_shared_refuted.
+
+Theorem c19_shared_not_suffix :
+  forall f hs, mrun 2 10 2 shared_ops = MOk f hs ->
+  ~ exists D, mwritten shared_ops = D ++ concat_files f 2.
+Proof. exact shared_not_suffix. Qed.
+Print Assumptions c19_shared_not_suffix.
